@@ -81,6 +81,20 @@ def run(chk):
                         return check(SL, pk)
                     chk.run("C13.R1", SITE[eq_type], cfg, go, construct=f"system terms[{eq_type}]")
 
+        # per-unknown specifications: unknown a has two outputs, a boundary condition / observations on a part of them; unknown b
+        # is scalar - each internal single-network loss must receive ITS OWN selection (both orders of the unknowns)
+        for unknowns in (('a', 'b'), ('b', 'a')):
+            for kind in kinds:
+                sp_a = dict(m_u=2, bc_dim=slice(1, 2), obs_slice=slice(0, 1))
+                terms = tuple(t for t in names if t != 'norm' and not (kind == 'SPINN' and t == 'obs'))
+                cfg = {"loss": eq_type, "net": kind, "unknowns": list(unknowns), "terms": list(terms),
+                       "specs": {"a": "2 outputs, bc on [1:2], observed [0:1]", "b": "scalar"}}
+
+                def go_specs(eq_type=eq_type, kind=kind, unknowns=unknowns, terms=terms, sp_a=sp_a):
+                    SL = SystemLoss(E, eq_type, kind, unknowns=unknowns, terms=terms, specs={'a': sp_a})
+                    return check(SL)
+                chk.run("C13.R1", SITE[eq_type], cfg, go_specs, construct=f"system terms with per-unknown selections[{eq_type}]")
+
         # R4: numbers of equations / unknowns
         shapes = [(1, 2), (2, 1), (3, 2), (2, 3)] if thorough else [(1, 2), (3, 2)]
         for ne, nu in shapes:
